@@ -155,11 +155,13 @@ where
     }
 
     async fn client_shutdown(&mut self, id: ConnectionId) -> Result<(), ConnectionError<T::Error>> {
-        self.send_broker_shutdown(id).await?;
+        // The broker may have shut down concurrently. The client still gets its `Shutdown`; the
+        // failure to reach the broker is reported afterwards.
+        let res = self.send_broker_shutdown(id).await;
         self.send_message(Shutdown).await?;
         self.drain_broker_recv().await;
 
-        Ok(())
+        res
     }
 
     async fn client_error(&mut self, id: ConnectionId) -> Result<(), ConnectionError<T::Error>> {
